@@ -90,7 +90,13 @@ var lengthChangingRunes = func() []rune {
 func entityWord(r *rng) string {
 	pre := r.pick([]string{"", "", "stra", "caf", "na", "x", "Re"})
 	post := r.pick([]string{"", "", "e", "ve", "s", "X"})
-	switch r.intn(5) {
+	switch r.intn(6) {
+	case 5:
+		// a rewritten word ("https") one of whose letters is an upper-case letter given as a character reference
+		w := []byte("https")
+		k := r.intn(len(w))
+		ref := fmt.Sprintf(r.pick([]string{"&#%d;", "&#x%x;"}), int(w[k])-32)
+		return string(w[:k]) + ref + string(w[k+1:]) + r.pick([]string{"://example.org/x", "", "://a.b/https"})
 	case 0, 1:
 		return pre + "&" + entityNames[r.intn(len(entityNames))] + ";" + post
 	case 2:
